@@ -41,7 +41,9 @@ func (mc *methodCache[R]) get(key string) (R, bool) {
 		return zero, false
 	}
 	if entry.result.GetTTLMs() <= 0 || !entry.isValid() {
-		delete(mc.cachedValues, key)
+		// Not served from the cache any more, but kept until a newer result
+		// replaces it: it is still the last definition seen (see
+		// [ClientSession.lookupTool]) while that result is being fetched.
 		var zero R
 		return zero, false
 	}
